@@ -54,9 +54,16 @@ Reset(b) ==
 (* Documented observations.  Code(): "the status code that was set" once     *)
 (* SetImplicitSuccess has been called -- 200 when none was; 0 before that    *)
 (* when WriteHeader was not called (the panic-detection use).  For several   *)
-(* WriteHeader calls the documentation does not say which one counts.        *)
-AllowedCode == IF Len(passed) > 0 THEN {passed[k] : k \in 1..Len(passed)}
-               ELSE IF implicit THEN {200} ELSE {0}
+(* WriteHeader calls the documentation does not say which one counts.  1xx   *)
+(* codes other than 101 are informational in net/http (they do not set the   *)
+(* response's status): when only such codes were passed, reading that as     *)
+(* "none was set" is accepted as well.  101 Switching Protocols IS a final   *)
+(* status: WriteHeader(101) alone must give Code() = 101.                    *)
+Informational(c) == c >= 100 /\ c <= 199 /\ c # 101
+NoneSet == IF implicit THEN {200} ELSE {0}
+AllowedCode == IF Len(passed) = 0 THEN NoneSet
+               ELSE {passed[x] : x \in 1..Len(passed)}
+                    \cup (IF \A x \in 1..Len(passed) : Informational(passed[x]) THEN NoneSet ELSE {})
 
 CodeOK == code \in AllowedCode
 LastWins == Len(passed) > 0 => code = passed[Len(passed)]      \* as written
